@@ -1,13 +1,11 @@
 #!/bin/bash
 # try_seed.sh <seed-dir> <check args...> : apply a seeded change to /repo, run a check, undo.
-# Evidence files are saved and restored (evidence must describe runs on the unchanged tree).
+# Evidence goes to a scratch directory (the committed evidence describes the unchanged tree).
 seed=$(realpath $1); shift
 cd /repo || exit 2
 if [ -n "$(git status --porcelain)" ]; then echo "repo not clean"; exit 2; fi
 git apply $seed/patch.diff || { echo "patch does not apply"; exit 2; }
-rm -rf /tmp/.evidence.bak && cp -r /verif/evidence /tmp/.evidence.bak
-cd /verif && ./check "$@"; rc=$?
-rm -rf /verif/evidence && mv /tmp/.evidence.bak /verif/evidence
+cd /verif && GOSYM_EVIDENCE_DIR=/tmp/.evidence.seed ./check "$@"; rc=$?
 git -C /repo checkout -- . ; git -C /repo status --porcelain
 echo "check exit=$rc"
 exit $rc
